@@ -138,6 +138,8 @@ pub struct Tables {
     pub prod_len: Vec<u32>,
     pub prod_nt: Vec<u32>,
     pub prod_is_start: Vec<bool>,
+    /// production belongs to a nonterminal reachable from the start symbol
+    pub prod_reachable: Vec<bool>,
     pub prods: Vec<ProdInfo>,
     /// display names of this grammar's terminals
     pub terminal_names: Vec<String>,
@@ -203,6 +205,28 @@ pub fn tables(g: &r::Grammar, user_nt: &str) -> Result<Tables, String> {
                 prod_is_start.push(p.nonterminal == *start_nt);
             }
         }
+        // nonterminals reachable from the start symbol (inlined helpers and the other public
+        // symbols stay in `grammar.nonterminals` but are not part of this automaton)
+        let mut reach: BTreeSet<r::NonterminalString> = BTreeSet::new();
+        let mut work = vec![start_nt.clone()];
+        while let Some(nt) = work.pop() {
+            if !reach.insert(nt.clone()) {
+                continue;
+            }
+            for p in g.productions_for(&nt) {
+                for s in &p.symbols {
+                    if let r::Symbol::Nonterminal(n) = s {
+                        work.push(n.clone());
+                    }
+                }
+            }
+        }
+        let prod_reachable: Vec<bool> = g
+            .nonterminals
+            .values()
+            .flat_map(|d| d.productions.iter())
+            .map(|p| reach.contains(&p.nonterminal))
+            .collect();
         let n_nts = nt_names.len();
         let mut action = vec![0i32; n_states * n_cols];
         let mut goto = vec![NO_GOTO; n_states * n_nts];
@@ -247,6 +271,7 @@ pub fn tables(g: &r::Grammar, user_nt: &str) -> Result<Tables, String> {
             prod_len,
             prod_nt,
             prod_is_start,
+            prod_reachable,
             prods,
             terminal_names: terminal_names(g),
         }
